@@ -275,6 +275,19 @@ def lazy_callback_rules(ctx: Ctx, rule: str) -> None:
     ctx.check(len(srcs) == 1 and dotted(srcs[0]) == "self._callbacks", rule, f, "iteration over self._callbacks",
               "callbacks awaited one by one in list (registration) order",
               f"__execute_callbacks iterates {[unparse(s) for s in srcs]} instead of self._callbacks in list order", instance="__execute_callbacks: list order")
+    # per-callback isolation: after one callback has failed the loop goes on with the next one (the result store is one of the callbacks)
+    aws = [n for n in g.nodes if n.kind == "await" and (n.in_comp or any(isinstance(l, (ast.For, ast.AsyncFor)) and any(x is n.ast for x in ast.walk(l)) for l in ast.walk(f.node)))]
+    heads = {n.id for n in g.nodes if n.kind == "iter"}
+    iso = True
+    for a in aws:
+        handlers = [y for y, k in g.succ[a.id] if k == "exc" and g.nodes[y].meta.get("handler")]
+        escapes = any(k == "exc" and y == g.xexit.id for y, k in g.succ[a.id])
+        back = any(heads & flow.reach(g, [h], flow.NORMAL_KINDS) for h in handlers)
+        if escapes or not handlers or not back:
+            iso = False
+    ctx.check(bool(aws) and iso, rule, f, "each callback is isolated: a failing one is logged and the next one still runs", "try/except inside the loop",
+              "__execute_callbacks does not isolate the callbacks from each other: the first callback that raises ends the loop (or escapes), so callbacks registered after it - "
+              "including the result store - never run", instance="__execute_callbacks: per-callback isolation")
     gathered = [n for n in ast.walk(f.node) if isinstance(n, ast.Call) and (dotted(n.func) or "").endswith("gather")]
     ctx.check(not gathered, rule, f, "sequential execution of callbacks", "no concurrent gather of callbacks",
               "__execute_callbacks runs the callbacks concurrently (gather): registration order is not preserved", instance="__execute_callbacks: sequential")
